@@ -37,14 +37,17 @@ coap_oscore_initiate(coap_session_t *session, coap_oscore_conf_t *oscore_conf) {
 
     if (oscore_conf->recipient_id_count == 0) {
       coap_log_warn("OSCORE: Recipient ID must be defined for a client\n");
+      coap_delete_oscore_conf(oscore_conf);
       return 0;
     }
     if (oscore_conf->rfc8613_b_2) {
       /* Need to replace id_context with random value */
       coap_binary_t *id_context = coap_new_binary(8);
 
-      if (id_context == NULL)
+      if (id_context == NULL) {
+        coap_delete_oscore_conf(oscore_conf);
         return 0;
+      }
       coap_delete_bin_const(oscore_conf->id_context);
       coap_prng_lkd(id_context->s, id_context->length);
       oscore_conf->id_context = (coap_bin_const_t *)id_context;
@@ -85,8 +88,11 @@ coap_new_client_session_oscore_lkd(coap_context_t *ctx,
   coap_session_t *session =
       coap_new_client_session_lkd(ctx, local_if, server, proto);
 
-  if (!session)
+  if (!session) {
+    /* oscore_conf is documented to be freed off by this call */
+    coap_delete_oscore_conf(oscore_conf);
     return NULL;
+  }
 
   if (coap_oscore_initiate(session, oscore_conf) == 0) {
     coap_session_release_lkd(session);
